@@ -106,3 +106,40 @@ Proof.
 Qed.
 
 End S.
+
+(* ---------- extending a history by one input ---------- *)
+Section Snoc.
+Variable is_action : key -> bool.
+
+Lemma mrun_app L : forall h1 h2 s,
+  mrun is_action L s (h1 ++ h2) =
+  (fst (mrun is_action L s h1) ++ fst (mrun is_action L (snd (mrun is_action L s h1)) h2),
+   snd (mrun is_action L (snd (mrun is_action L s h1)) h2)).
+Proof.
+  induction h1 as [|i h1 IH]; intros h2 s; cbn [app mrun].
+  - cbn [fst snd app]. destruct (mrun is_action L s h2); reflexivity.
+  - destruct (mstep is_action L s i) as [[evs rep] s1]. rewrite IH.
+    destruct (mrun is_action L s1 h1) as [o1 s2]. cbn [fst snd].
+    destruct (mrun is_action L s2 h2) as [o2 s3]. reflexivity.
+Qed.
+
+Lemma state_of_snoc L h i :
+  state_of is_action L (h ++ [i]) = snd (mstep is_action L (state_of is_action L h) i).
+Proof.
+  unfold state_of. rewrite mrun_app. cbn [snd mrun].
+  destruct (mstep is_action L _ i) as [[evs rep] s1]. reflexivity.
+Qed.
+
+Lemma out_all_snoc L h i :
+  out_all is_action L (h ++ [i]) =
+  out_all is_action L h ++ fst (fst (mstep is_action L (state_of is_action L h) i)).
+Proof.
+  unfold out_all, state_of. rewrite mrun_app. cbn [fst mrun].
+  destruct (mstep is_action L _ i) as [[evs rep] s1]. cbn [fst snd].
+  rewrite concat_app. cbn [concat]. rewrite app_nil_r. reflexivity.
+Qed.
+
+Lemma phys_of_snoc h i : phys_of (h ++ [i]) = phys_after (phys_of h) i.
+Proof. unfold phys_of, phys_all. rewrite fold_left_app. reflexivity. Qed.
+
+End Snoc.
